@@ -234,6 +234,37 @@ def minimise(engine, values, signature, budget_s=60.0):
             return True
         return False
 
+    # 0. structure-aware pass: zero all entries that share a label (e.g. every
+    # scheduling decision -> "keep running the current task", every stall,
+    # every queue delay), then halves of such groups
+    labels = best[1]
+    groups = {}
+    for i, lab in enumerate(labels):
+        groups.setdefault(lab, []).append(i)
+    for lab, idxs in sorted(groups.items(), key=lambda kv: -len(kv[1])):
+        if len(idxs) < 3 or time.time() > t_end:
+            continue
+        cur = best[0]
+        if len(cur) != len(labels):
+            break                      # positions shifted: leave it to ddmin
+        todo = [idxs]
+        while todo and time.time() < t_end:
+            part = todo.pop()
+            if not any(cur[i] for i in part if i < len(cur)):
+                continue
+            cand = list(cur)
+            for i in part:
+                if i < len(cand):
+                    cand[i] = 0
+            if attempt(cand):
+                cur = best[0]
+                if len(cur) != len(labels):
+                    break
+            elif len(part) > 4:
+                todo.append(part[:len(part) // 2])
+                todo.append(part[len(part) // 2:])
+        if len(best[0]) != len(labels):
+            break
     improved = True
     while improved and time.time() < t_end:
         improved = False
